@@ -76,6 +76,26 @@ class _Finder(importlib.abc.MetaPathFinder, importlib.abc.Loader):
 
 
 _installed = False
+_tempdirs = []          # (pid, path) scratch directories created by this process
+
+
+def register_tempdir(path):
+    import atexit
+    import shutil
+    _tempdirs.append((os.getpid(), path))
+    atexit.register(shutil.rmtree, path, True)
+
+
+def cleanup_tempdirs():
+    """remove the scratch directories this process created (forked shard workers leave through os._exit,
+    which skips atexit handlers)"""
+    import shutil
+    me = os.getpid()
+    for pid, path in list(_tempdirs):
+        if pid == me:
+            shutil.rmtree(path, True)
+            _tempdirs.remove((pid, path))
+
 
 
 def install():
